@@ -9,6 +9,7 @@ connection object; emitted bytes are judged per transition by `refrpc`.
 from __future__ import annotations
 
 import io
+import json
 import os
 
 from .. import core
@@ -102,6 +103,11 @@ def alphabet(root, full=True):
         A.append(("position_neg", "textDocument/definition", {"textDocument": td1, "position": {"line": -1, "character": -1}}, True))
         A.append(("params_list", "textDocument/hover", [1, 2], True))
         A.append(("params_null", "workspace/symbol", None, True))
+        # well-formed JSON whose nesting exceeds what the decoder can take in one go
+        deep = []
+        for _ in range(1500):
+            deep = [deep]
+        A.append(("params_deep", "workspace/symbol", {"query": "s", "x": deep}, True))
     out = []
     for (label, method, params, is_req) in A:
         out.append((label, method, params, is_req))
@@ -140,13 +146,19 @@ def run_history(root, msgs, fake_pool=True):
     rd = io.BufferedReader(io.BytesIO(data))
     srv = ls.LangServer(conn=JSONRPC2Connection(ReadWriter(rd, out)), settings=parse_cli([]))
     marks = []
-    real = srv.handle
+    real_read = srv.conn.read_message
 
-    def handle(req):
+    def read_message(*a, **k):
+        # everything written from the moment the k-th message starts being read until the next read starts is
+        # attributed to message k (a message that cannot even be decoded is still a message the client sent)
         marks.append(out.tell())
-        return real(req)
+        try:
+            return real_read(*a, **k)
+        except EOFError:
+            marks.pop()
+            raise
 
-    srv.handle = handle
+    srv.conn.read_message = read_message
     exc = None
     cwd = os.getcwd()
     os.chdir(os.path.join(root, "empty_cwd"))
@@ -156,7 +168,7 @@ def run_history(root, msgs, fake_pool=True):
         exc = repr(e)
     finally:
         os.chdir(cwd)
-    del srv.__dict__["handle"]
+    del srv.conn.__dict__["read_message"]
     raw = out.getvalue()
     marks.append(len(raw))
     per = []
@@ -164,6 +176,15 @@ def run_history(root, msgs, fake_pool=True):
         per.append(raw[marks[i]:marks[i + 1]])
     leftover = rd.read()
     return per, len(marks) - 1, exc, srv, raw, leftover
+
+
+def _brief(m):
+    """A message as it goes into a violation record (a deeply nested one is summarised: records are written as JSON)."""
+    try:
+        json.dumps(m)
+        return m
+    except RecursionError:
+        return {k: (v if k != "params" else "<nested too deeply to print>") for k, v in m.items()}
 
 
 def judge(msgs, per, handled, exc, leftover):
@@ -201,7 +222,7 @@ def judge(msgs, per, handled, exc, leftover):
                 bad.append(("jsonrpc_version", o))
         if "id" in m:
             if len(responses) != 1:
-                bad.append((f"responses_for_request={len(responses)}", {"request": m, "outputs": frames}))
+                bad.append((f"responses_for_request={len(responses)}", {"request": _brief(m), "outputs": frames}))
             else:
                 r = responses[0]
                 if r.get("id") != m["id"] or type(r.get("id")) is not type(m["id"]):
@@ -211,7 +232,8 @@ def judge(msgs, per, handled, exc, leftover):
                     unknown = m["method"] not in METHODS
                     if unknown and code != -32601:
                         bad.append(("unknown_method_code", r))
-                    if not unknown and code != -32603:
+                    # a message the decoder could not take is neither: its id is unknown to the server, the code is ParseError
+                    if not unknown and code != -32603 and not (code == -32700 and r.get("id") is None):
                         bad.append(("handler_failure_code", r))
                     if not isinstance(r["error"].get("message"), str):
                         bad.append(("error_message_type", r))
@@ -219,7 +241,7 @@ def judge(msgs, per, handled, exc, leftover):
                     bad.append(("unknown_method_got_result", r))
         else:
             if responses:
-                bad.append(("response_to_notification", {"notification": m, "responses": responses}))
+                bad.append(("response_to_notification", {"notification": _brief(m), "responses": responses}))
     # every response id is a received id, in arrival order
     if resp_ids != received_ids[: len(resp_ids)] and not any(b[0].startswith(("responses_for", "response_to", "wrong")) for b in bad):
         bad.append(("response_order", {"received": received_ids, "responded": resp_ids}))
